@@ -11,12 +11,16 @@ def create_build_finer_grid_fun(epsilon: float, maturity: float):
     ):
         return jump_times, fines_states_values, coarse_states_values
 
+    # a step is split only when it exceeds epsilon by more than rounding (see SimulationMaximumStep): the remainder of a gap
+    # that is a multiple of epsilon is epsilon plus a few ulps and must not be split again
+    threshold = epsilon * (1 + 1e-12)
+
     def _build_finer_grid(self, jump_times, fines_states_values, coarse_states_values):
         dts = np.concatenate(([jump_times[0]], np.diff(jump_times)))
-        if not any(dts > epsilon):
+        if not any(dts > threshold):
             return jump_times, fines_states_values, coarse_states_values
         else:
-            positions = np.nonzero(dts > epsilon)[0]
+            positions = np.nonzero(dts > threshold)[0]
             aug_fine_js = fines_states_values
             aug_coarse_js = coarse_states_values
             aug_dts = dts
@@ -35,7 +39,7 @@ def create_build_finer_grid_fun(epsilon: float, maturity: float):
                     np.where(positions == 0, 0, aug_coarse_js[..., positions - 1]),
                     axis=-1,
                 )
-                positions = np.nonzero(aug_dts > epsilon)[0]
+                positions = np.nonzero(aug_dts > threshold)[0]
             aug_jump_times = np.cumsum(aug_dts)
 
             return aug_jump_times, aug_fine_js, aug_coarse_js
